@@ -329,10 +329,10 @@ _mtbl_compress_zlib(
 		compression_level = Z_BEST_COMPRESSION;
 	}
 
-	*output_size = 2 * input_size;
-	*output = my_malloc(*output_size);
 	zret = deflateInit(&zs, compression_level);
 	assert(zret == Z_OK);
+	*output_size = deflateBound(&zs, input_size);
+	*output = my_malloc(*output_size);
 	zs.avail_in = input_size;
 	zs.next_in = (uint8_t *) input;
 	zs.avail_out = *output_size;
